@@ -1,4 +1,6 @@
 import NeoFS.Lemmas.Netmap
+import NeoFS.Generated.Consts
+import NeoFS.Generated.Footprint
 /-! # C06 — Netmap tick: growing epoch, atomic candidate publication, subscriber fan-out
 
 Property theorems only. Model: `NeoFS/Model/Netmap.lean`; specifications in the property's vocabulary:
@@ -194,5 +196,126 @@ example :
     let p : Hash := List.replicate 20 1
     let env : Env := ⟨true, [], 4, fun _ => true, fun h _ => h != p⟩
     (step (run init [(env, .subscribe p)]) env (.newEpoch 5)).isSome = false := by decide
+
+/-! ### further roots: the deployment whose snapshot count was changed once, before anything else
+
+`UpdateSnapshotCount(k)` is legal for `0 < k ≤ 256`, `k ≠ DefaultSnapshotCount`. Called on the untouched deployment it leaves
+the state `initWith k` (count `k`, current id 0, the slots `initSlots k`, everything else as deployed; observed on the raw
+storage for `k ∈ {1, 2, 255, 256}`). The statements above hold for every history from every such root — for every positive
+`k`, so the bound 256 is not even needed. The snapshot count matters to the tick: `dropNetmap(e - count)` runs only when
+`e > count`; without that guard a tick `e ∈ 128..255` at count 256 would delete the map it has just written, because the
+four key bytes of the negative epoch `e - 256` are those of `e` (`be4_of_negative_collides`). -/
+
+/-- the new roots contain the old one -/
+theorem default_count_root_is_deployment : initWith 10 = init := initWith_default
+
+/-- all states reachable from a once-resized deployment satisfy the invariant -/
+theorem reachable_inv_resized (k : Nat) (hk : 0 < k) (hist : List (Env × Op)) : Inv (run (initWith k) hist) :=
+  inv_run hist (inv_initWith k hk)
+
+/-- success condition of a tick, from every root -/
+theorem newEpoch_halts_iff_resized (k : Nat) (hk : 0 < k) (hist : List (Env × Op)) (env : Env) (e : Int) :
+    (step (run (initWith k) hist) env (.newEpoch e)).isSome = true ↔
+      env.alphabet = true ∧ (run (initWith k) hist).epoch < e ∧
+      ∀ h ∈ subscribers (run (initWith k) hist), env.accepts h e = true := by
+  have hi := reachable_inv_resized k hk hist
+  exact newEpoch_isSome_iff _ env e (by have := hi.count; omega)
+
+/-- epoch counter and subscriber list follow the specification's fold, from every root -/
+theorem epoch_and_subscribers_follow_spec_resized (k : Nat) (hk : 0 < k) (hist : List (Env × Op)) :
+    ((run (initWith k) hist).epoch, subscribers (run (initWith k) hist)) = Spec.tickRun (0, []) hist :=
+  tick_run (inv_initWith k hk) hist
+
+/-- legacy publication, from every root: `netmap()` after a successful tick = the non-offline (= all) legacy candidates -/
+theorem tick_publishes_legacy_resized (k : Nat) (hk : 0 < k) (hist : List (Env × Op)) (env : Env) (e : Int) (r : Halt)
+    (h : step (run (initWith k) hist) env (.newEpoch e) = some r) :
+    netmap r.1 = (netmapCandidates (run (initWith k) hist)).filter (fun n => n.state != 2) ∧
+    netmap r.1 = netmapCandidates (run (initWith k) hist) := by
+  simp only [step] at h
+  obtain ⟨_, _, _, _, hr⟩ := newEpoch_some h
+  rw [hr, tick_netmap]
+  refine ⟨rfl, filterNetmap_all (reachable_inv_resized k hk hist).cands ?_⟩
+  rw [abs_run, abs_initWith]; exact candWF_run candWF_empty hist
+
+/-- structured publication, from every root (any positive snapshot count, in particular 256 with `e` in 128..255):
+`listNodes(e)` = `listNodes()` = the structured candidates before the tick, for `e < 2^32` -/
+theorem tick_publishes_structured_resized (k : Nat) (hk : 0 < k) (hist : List (Env × Op)) (env : Env) (e : Int) (r : Halt)
+    (hb : e < 4294967296) (h : step (run (initWith k) hist) env (.newEpoch e) = some r) :
+    listNodesEpoch r.1 e = listCandidates (run (initWith k) hist) ∧
+    listNodes r.1 = listCandidates (run (initWith k) hist) := by
+  simp only [step] at h
+  obtain ⟨_, he, _, _, hr⟩ := newEpoch_some h
+  have := tick_listNodes env e (reachable_inv_resized k hk hist) he hb
+  rw [hr]; exact ⟨this, this⟩
+
+/-- fan-out, from every root -/
+theorem tick_fanout_resized (k : Nat) (hk : 0 < k) (hist : List (Env × Op)) (env : Env) (e : Int) (r : Halt)
+    (h : step (run (initWith k) hist) env (.newEpoch e) = some r) :
+    r.2 = (Spec.subRun [] hist).map (fun c => Event.called c e) ++ [.newEpoch e] ∧ (Spec.subRun [] hist).Nodup := by
+  have hi := inv_initWith k hk
+  have hs : subscribers (run (initWith k) hist) = Spec.subRun [] hist := subscribers_run hi hist
+  simp only [step] at h
+  obtain ⟨_, _, _, _, hr⟩ := newEpoch_some h
+  rw [hr, ← hs]; exact ⟨rfl, (reachable_inv_resized k hk hist).subsNodup⟩
+
+/-- why the guard `e > count` before `dropNetmap(e - count)` is part of the publication: the key prefix of the negative
+epoch `e - 256` is the prefix of `e` itself for every `e` in 128..255 -/
+theorem be4_of_negative_collides :
+    (List.range' 128 128).all (fun e => be4 ((e : Int) - 256) == be4 (e : Int)) = true ∧
+    be4 (127 - 256) ≠ be4 127 ∧ be4 (256 - 256) ≠ be4 256 := by decide
+
+example : initSlots 256 = [0, 247, 248, 249, 250, 251, 252, 253, 254, 255] ∧ initSlots 255 = [0, 246, 247, 248, 249, 250, 251, 252, 253, 254]
+    ∧ initSlots 2 = [0, 1] ∧ initSlots 1 = [0] ∧ initSlots 11 = [0, 2, 3, 4, 5, 6, 7, 8, 9, 10] := by decide
+
+example :
+    let a : Key := List.replicate 33 1
+    let env : Env := ⟨true, [a], 9, fun _ => true, fun _ _ => true⟩
+    let blob : Bytes := [0, 0] ++ a ++ [7]
+    let s := run (initWith 256) [(env, .addPeer blob), (env, .addNode ⟨[[97]], [([65], [49])], a, 1⟩), (env, .newEpoch 127)]
+    (step s env (.newEpoch 128)).map (fun r => (netmap r.1, listNodes r.1, listNodesEpoch r.1 127, r.1.epoch, r.1.curId, r.1.count)) =
+      some ([⟨blob, 1⟩], [⟨[[97]], [([65], [49])], a, 1⟩], [⟨[[97]], [([65], [49])], a, 1⟩], 128, 2, 256) := by decide
+
+/-! ## Frame of the model, regenerated: what a tick can write
+
+Checked by kernel evaluation over `NeoFS.Generated.Footprint.table` (grouped by contract: `contracts`), the MAY-WRITE footprint recomputed from the Go sources on
+every run (`extract footprint`; `Model/Footprint.lean`). -/
+section Footprint
+open NeoFS.Footprint NeoFS.Generated.Footprint
+
+def fpEpochKey : Fam := exactly NeoFS.Generated.netmap_snapshotEpoch_bytes
+def fpBlockKey : Fam := exactly NeoFS.Generated.netmap_snapshotBlockKey_bytes
+def fpCandidates : Fam := startingWith NeoFS.Generated.netmap_candidatePrefix_bytes
+def fpCandidates2 : Fam := startingWith NeoFS.Generated.netmap_node2CandidatePrefix_bytes
+def fpNetmap2 : Fam := startingWith NeoFS.Generated.netmap_node2NetmapPrefix_bytes
+def fpSubscribers : Fam := startingWith NeoFS.Generated.netmap_newEpochSubscribersPrefix_bytes
+
+/-- "the epoch counter only grows" rests on: the epoch key and the tick height are written by `newEpoch` (and at deployment)
+only, and nobody deletes them. -/
+theorem epoch_and_tick_height_written_only_by_newEpoch :
+    onlyBy contracts "netmap" "put" fpEpochKey ["newEpoch", "_deploy"] = true ∧
+    onlyBy contracts "netmap" "put" fpBlockKey ["newEpoch", "_deploy"] = true ∧
+    onlyBy contracts "netmap" "delete" fpEpochKey [] = true ∧ onlyBy contracts "netmap" "delete" fpBlockKey [] = true := by decide +kernel
+
+/-- "leaves the candidate set itself unchanged": no storage write of `newEpoch` can concern a candidate key of either format. -/
+theorem newEpoch_never_writes_a_candidate : touchesNone contracts "netmap" "newEpoch" [fpCandidates, fpCandidates2] = true := by
+  decide +kernel
+
+/-- The structured network map of an epoch is published by `newEpoch` only. -/
+theorem structured_netmap_published_only_by_newEpoch : onlyBy contracts "netmap" "put" fpNetmap2 ["newEpoch"] = true := by decide +kernel
+
+/-- Subscriptions are added by `subscribeForNewEpoch` (and by the upgrade migration) only, nobody removes one; `newEpoch` is the
+only method that calls `newEpoch` of another contract, and the only one that emits `NewEpoch`. -/
+theorem subscribers_written_only_by_subscribe_and_ticked_only_by_newEpoch :
+    onlyBy contracts "netmap" "put" fpSubscribers ["subscribeForNewEpoch", "_deploy"] = true ∧
+    onlyBy contracts "netmap" "delete" fpSubscribers [] = true ∧
+    namedOnlyBy contracts "netmap" "call" "newEpoch" ["newEpoch"] = true ∧
+    namedOnlyBy contracts "netmap" "notify" "NewEpoch" ["newEpoch"] = true := by decide +kernel
+
+example : does contracts "netmap" "newEpoch" "put" fpEpochKey = true ∧ does contracts "netmap" "newEpoch" "put" fpBlockKey = true ∧
+    does contracts "netmap" "newEpoch" "put" fpNetmap2 = true ∧ does contracts "netmap" "subscribeForNewEpoch" "put" fpSubscribers = true ∧
+    named contracts "netmap" "newEpoch" "call" "newEpoch" = true := by decide +kernel
+example : touchesNone (withRow contracts ⟨"netmap", "newEpoch", "delete", "", "", NeoFS.Generated.netmap_candidatePrefix_bytes ++ [1], false⟩)
+    "netmap" "newEpoch" [fpCandidates, fpCandidates2] = false := by decide +kernel
+end Footprint
 
 end NeoFS.Props.C06
